@@ -7,6 +7,7 @@ Line forms (tokens separated by blanks, parentheses are tokens, strings are hex 
   `cmp <ctx> <op> <value> <value> => T|F|none|panic`                 C08, values compared directly
   `cmpx <path> <op> <expr> <expr> => T|F|none|kept|dropped|panic`    C08 through expressions / Engine
   `ev <path> <expr> => some <value>|none|panic|abort`                C11
+  `evp <expr> => some <value>|none|panic|abort`                     C11/C08: eval_pattern_expr, vars = bindings
   `probe <path> <text> => ok|panic|abort`                            C11, no model (unmodelled forms)
   `c10 <expr> => <res> | <res> | <expr>`                             C10: unfolded, folded, folded AST
   `c10t <expr> => <res>`                                             C10: value after parse()+Engine
@@ -595,6 +596,15 @@ def step (st : St) (line : String) : St × String :=
     match parseExpr rest with
     | some (e, []) => (st, stepEv st.env e impl)
     | _ => (st, "BADLINE ev")
+  | "evp" :: rest =>
+    match parseExpr rest with
+    | some (e, []) =>
+      (st, if impl == "panic" then "JUDGE C11 pattern expression panicked"
+           else if impl == "abort" then "JUDGE C11 pattern expression aborted the process"
+           else
+             let r := evalPat hw .fixed st.env.binds e
+             if resHasMarker r then "SKIP" else verdict (showRes r) impl)
+    | _ => (st, "BADLINE evp")
   | "probe" :: _ =>
     (st, if impl == "ok" then "ok" else if impl == "panic" then "JUDGE C11 evaluation panicked"
          else "JUDGE C11 evaluation aborted the process (stack overflow)")
